@@ -22,7 +22,11 @@ def add_to(run):
     # vacuity guard: a function that WAS read must have produced its key clauses (one outside the subset is reported above)
     req = ["_Namespace.is_available::available-iff-no-query-is-related-to-an-assigned-name",
            "MemoryMap.add_resource[naming]::accepted-name-is-valid-and-unrelated", "MemoryMap.add_resource[naming]::refusal-has-a-reason",
-           "MemoryMap.add_window[naming]::visible-names-absorb-the-window", "MemoryMap.add_window[naming]::refusal-leaves-names-unchanged"]
+           "MemoryMap.add_window[naming]::visible-names-absorb-the-window", "MemoryMap.add_window[naming]::refusal-leaves-names-unchanged",
+           "MemoryMap.add_resource[naming]::origins-preserved:resource-names-visible-and-own",
+           "MemoryMap.add_window[naming]::origins-preserved:absorbed-names-visible-and-from-their-window",
+           "MemoryMap.all_resources[paths]::first-path-element-is-a-visible-name-originating-from-the-range-entry",
+           "MemoryMap.all_resources[paths]::paths-through-different-entries-start-with-unrelated-names"]
     run.require(*[r for r in req if r.split("::")[0] in done])
     run.assumptions += BASE_ASSUMPTIONS_L1 + [
         "name parts are values of an uninterpreted sort with equality; Len(name) >= 1 (MemoryMap.Name refuses empty names: bounded clause name_validation)",
@@ -30,5 +34,14 @@ def add_to(run):
         "is_available's contract requires pairwise unrelated queries (a single name, or the names of one prefix-free namespace)",
         "MemoryMap level (contracts/naming.py): the visible-name set of every map is prefix-free (established by __init__ with the empty "
         "set, preserved by add_resource/add_window: obligations namespace-stays-prefix-free); refusals that come out of the placement "
-        "step (_compute_addr_range) are C02's business and are excluded from `refusal-has-a-reason`"]
+        "step (_compute_addr_range) are C02's business and are excluded from `refusal-has-a-reason`",
+        "path distinctness: SMT half = origin-of-names invariant (ghost Src) preserved by add_resource/add_window + first path element of every "
+        "all_resources() yield is a visible name originating from its range entry; structural half (prefixing keeps lists duplicate-free, "
+        "lists starting differently are disjoint, one level of the tree) proved in Lean (lemmas/Paths.lean); the induction over the height "
+        "of the tree combines them (child = same contract); NSc(child, x) is the child's visible-name set, constant once the child is frozen"]
+    from ..lean_check import status as _ls
+    run.extra["lean_lemmas"] = {"files": _ls(), "used": "Paths.lean: prefixed_nodup, disjoint_of_heads, level_nodup"}
+    for _f, _st in run.extra["lean_lemmas"]["files"].items():
+        if _st != "accepted":
+            run.assumptions.append(f"Lean lemma file {_f} is '{_st}': what it backs is TRUSTED in this run")
     discharge_all(run, obs, timeout_ms=20000)
